@@ -127,6 +127,10 @@ def genome_pipeline(ctx, replay, prop):
         import pipe_parallel
         pipe_parallel.forced_schedules(ctx, replay, "C03", ["split-split", "split-linksplit"] + (["two-each"] if thorough else []), 0,
                                        asfound=False, clauses=["number with two meanings", "issued number not larger", "node id shared"])
+    if prop in ("C01", "C04", "C05", "C06") and (replay is None or any(v.get("replay", {}).get("kind") == "x10" for v in replay.get("violations", []))):
+        # the operators as the library itself applies them while reproducing (hooks in Species.reproduce, Trace_Reproduce)
+        import pipe_grow_x10
+        pipe_grow_x10.reproduce_traces(ctx, replay, prop)
     if prop in ("C01", "C03", "C06"):
         # the population-level clauses of the same property: constructed populations and whole epochs (Trace_Epoch)
         import pipe_epoch
